@@ -48,6 +48,23 @@ var c09BigKey = strings.Repeat("k", 5000)
 
 var c09KeyBatches = [][]string{{"a", "b"}, {"b", c09BigKey}, {"é"}}
 
+// c09BigImport: 1300 columns x (bit depth 7 + 1) > the fragment's MaxOpN of 10000 (value 100 forces
+// bit depth 7; below the threshold the import would log one op per bit instead). Columns 3 and 4 get
+// values different from every other op's, the rest is filler with a few observed columns.
+func c09BigImport() ([]uint64, []int64) {
+	cols := []uint64{3, 4}
+	vals := []int64{1, -3}
+	for i := uint64(0); i < 1298; i++ {
+		cols = append(cols, 1000+i)
+		vals = append(vals, int64(i%7)-3)
+	}
+	vals[3] = 100
+	return cols, vals
+}
+
+// columns of the int field that recovery reads back
+var c09ValueCols = []uint64{3, 4, 1000, 1001, 2297}
+
 func c09Alphabet(thorough bool) []c09Op {
 	sw := int64(ShardWidth)
 	a := []c09Op{
@@ -67,6 +84,9 @@ func c09Alphabet(thorough bool) []c09Op {
 		{"snapshotS", nil},
 		{"keys", []int64{0}},
 		{"keys", []int64{1}},
+		// a value import large enough for the fragment's BULK path (count*(bitDepth+1)+opN >= MaxOpN:
+		// the op log is detached, the values are applied in memory and persisted by a snapshot)
+		{"importVBig", nil},
 	}
 	if thorough {
 		a = append(a, c09Op{"keys", []int64{2}}, c09Op{"rowKeys", nil}, c09Op{"setV", []int64{4, 100}})
@@ -182,6 +202,31 @@ func (st *c09Store) apply(op c09Op) error {
 			return err
 		}
 		return f.importValue([]uint64{3, 4}, []int64{7, -2}, &ImportOptions{})
+	case "importVBig":
+		f, err := st.field("v")
+		if err != nil {
+			return err
+		}
+		cols, vals := c09BigImport()
+		if st.queue == nil {
+			return f.importValue(cols, vals, &ImportOptions{})
+		}
+		// the bulk path WAITS for the background snapshot it enqueues; the harness owns the queue
+		// (background snapshots are explicit steps elsewhere), so it plays the queue worker for as
+		// long as this request is in flight — exactly what snapshotQueueWorker does
+		done := make(chan error, 1)
+		go func() { done <- f.importValue(cols, vals, &ImportOptions{}) }()
+		for {
+			select {
+			case err := <-done:
+				return err
+			case g := <-st.queue:
+				if err := g.protectedSnapshot(true); err != nil {
+					return err
+				}
+				g.snapshotCond.Broadcast()
+			}
+		}
 	case "setM":
 		f, err := st.field("m")
 		if err != nil {
@@ -682,6 +727,11 @@ func (m *c09Model) apply(op c09Op) {
 		m.vals[uint64(op.A[0])] = op.A[1]
 	case "importV":
 		m.vals[3], m.vals[4] = 7, -2
+	case "importVBig":
+		cols, vals := c09BigImport()
+		for i, c := range cols {
+			m.vals[c] = vals[i]
+		}
 	case "setM":
 		f := m.frag("m", 0)
 		for b := range f {
@@ -871,7 +921,7 @@ func c09JudgeInner(dir string, acked, after *c09Model, inflight *c09Op, ackedOps
 	// integer values
 	if idx := st.h.Index("i"); idx != nil {
 		if f := idx.Field("v"); f != nil {
-			for _, col := range []uint64{3, 4} {
+			for _, col := range c09ValueCols {
 				v, ex, err := f.Value(col)
 				if err != nil {
 					return "restart-read-error", err.Error()
@@ -1142,6 +1192,12 @@ func TestVerif_C09(t *testing.T) {
 		for _, last := range []c09Op{alpha[1], alpha[5], alpha[12], alpha[13], alpha[14]} {
 			hists = append(hists, []c09Op{alpha[0], mid, last})
 		}
+	}
+	// depth-3/4 histories around the bulk value import: repeated (nothing changes the second time),
+	// then further acknowledged writes to the same fragment
+	big := alpha[16]
+	for _, last := range []c09Op{alpha[5], alpha[6], alpha[7], alpha[13]} {
+		hists = append(hists, []c09Op{big, big, last}, []c09Op{alpha[5], big, last}, []c09Op{big, big, last, alpha[6]})
 	}
 	if c.Thorough() {
 		// selected depth-3 histories around snapshots and the key store
